@@ -4,6 +4,7 @@ import (
 	"bytes"
 	"fmt"
 	"math/rand"
+	"sort"
 
 	"github.com/ulikunitz/lz"
 	"verif/core"
@@ -27,6 +28,9 @@ type histProp struct {
 	newObs func(pc *PCase, ps *PState, c *core.Case, st *core.Stats) histObserver
 	// large adds big-geometry kinds in the thorough tier.
 	large bool
+	// fixed are hand-written directed cases (kind "fixed:<name>"), e.g. the
+	// reproducers of recorded findings.
+	fixed map[string]PCase
 }
 
 type histObserver interface {
@@ -38,6 +42,14 @@ type histObserver interface {
 
 func (h *histProp) Plan(tier string, seed int64) []core.Segment {
 	var segs []core.Segment
+	var names []string
+	for name := range h.fixed {
+		names = append(names, name)
+	}
+	sort.Strings(names)
+	for _, name := range names {
+		segs = append(segs, core.Segment{Kind: "fixed:" + name, N: 1})
+	}
 	for _, t := range h.types {
 		segs = append(segs, core.Segment{Kind: "corpus:" + t, N: h.corpusN})
 		segs = append(segs, core.Segment{Kind: t, N: h.quickN * tierScale(tier, h.thorMul)})
@@ -95,11 +107,13 @@ func (h *histProp) Gen(kind string, idx int64, seed int64, tier string) core.Cas
 				pc.Ops[i].A, pc.Ops[i].B = 0, 50000+r.Intn(200000)
 			}
 		}
+	case "fixed":
+		pc = h.fixed[typ]
 	default:
 		nops := 20 + r.Intn(61)
 		pc = GenPCase(r, typ, o, h.weights, nops, 200+r.Intn(1000))
 	}
-	if h.tweak != nil {
+	if h.tweak != nil && class != "fixed" {
 		h.tweak(r, &pc, kind)
 	}
 	return core.MkCase(h.id, kind, idx, seed, tier, pc)
